@@ -790,6 +790,8 @@ def rule_G(ctx):
             fam.append((t1, t2, 2, (('MODE_MATCHING_DTW', 2), ('MODE_MATCHING_FDTW', INFP), ('MODE_MATCHING_FRECHET', 1))))
     # (c) longer tracks, distances in dimension 1, 2 and 3, every mode and exponent
     extra = [([A_, B_, A_], [B_, A_, B_]), ([A_, B_, C_, A_], [A_, C_]), ([A_], [B_, C_, A_, B_]), ([A_, A_, B_, C_], [A_, B_, B_, C_]), ([C_, B_, A_], [A_, B_, C_])]
+    # (... and vertical motion: consecutive fixes with the same easting and northing and another height)
+    extra = extra + [([A_, (0.0, 0.0, 3.0), B_], [B_, A_, (0.0, 0.0, 4.0)]), ([B_, (1.0, 0.0, 7.0), (1.0, 0.0, -1.0)], [A_, C_])]
     for t1, t2 in extra:
         for dim in (1, 2, 3):
             fam.append((t1, t2, dim, (('MODE_MATCHING_DTW', 1), ('MODE_MATCHING_DTW', 2), ('MODE_MATCHING_DTW', INFP), ('MODE_MATCHING_FDTW', 1),
